@@ -1,6 +1,7 @@
 import Tv.Handlers.C01
 import Tv.Handlers.C02
 import Tv.Handlers.Cross
+import Tv.Handlers.C03
 import Tv.Handlers.C14
 import Tv.Handlers.C19
 import Tv.Handlers.C10
@@ -8,7 +9,7 @@ import Tv.Handlers.C07
 open Tv Tv.Proto Tv.Handlers
 
 /-- per-function handlers -/
-def baseHandlers : List Handler := [c01, c02, c10, c07, c19, c14]
+def baseHandlers : List Handler := [c01, c02, c10, c07, c19, c14, c03]
 
 def handlers : List Handler := baseHandlers ++ [c06 baseHandlers]
 
